@@ -94,6 +94,7 @@ type c06Frame struct {
 type c06Body struct {
 	mu       sync.Mutex
 	remain   int
+	limit    int // the scratch buffer length of this upload (0 = not known yet): see Read
 	gate     chan int // n = how many bytes the next Read may return (0 = as many as fit)
 	readDone chan int
 	closed   chan struct{}
@@ -127,6 +128,14 @@ func (b *c06Body) Read(p []byte) (int, error) {
 	}
 	if n > 0 && n < k {
 		k = n
+	}
+	// writeRequestBody takes its scratch buffer from a sync.Pool and uses a pooled buffer at
+	// its full length, which can exceed frameScratchBufferLen (left over from an upload with a
+	// larger frame size). How much one Read hands over must not depend on that: never more than
+	// the scratch length this upload asked for (the function itself is checked by the flow lane
+	// and bridged to the model).
+	if b.limit > 0 && b.limit < k {
+		k = b.limit
 	}
 	b.remain -= k
 	b.mu.Unlock()
@@ -671,6 +680,16 @@ func (e *c06Env) startRoundTrip(bodyLen int, known bool, padLen int) *c06Stream 
 
 func (e *c06Env) register(st *c06Stream, cs *clientStream) {
 	st.cs = cs
+	if st.body != nil {
+		// streamf runs between addStreamLocked and the header write; nothing the script does can
+		// change cc.maxFrameSize before writeRequestBody reads it (the script is waiting for us)
+		e.cc.mu.Lock()
+		mf := int(e.cc.maxFrameSize)
+		e.cc.mu.Unlock()
+		st.body.mu.Lock()
+		st.body.limit = cs.frameScratchBufferLen(mf)
+		st.body.mu.Unlock()
+	}
 	st.id = cs.ID
 	st.win = e.initWin
 	st.cwin = e.cInitWin
@@ -685,7 +704,6 @@ func (st *c06Stream) openToken() string {
 
 // open returns the op token ("o:<hdrLen>:<bodyLen>:<known>").
 func (e *c06Env) open(bodyLen int, known bool, padLen int) string {
-	bufPoolsReset()
 	st := e.startRoundTrip(bodyLen, known, padLen)
 	e.opened = append(e.opened, st)
 	deadline := time.Now().Add(c06Wait)
@@ -717,32 +735,34 @@ func (e *c06Env) open(bodyLen int, known bool, padLen int) string {
 	return st.openToken()
 }
 
-// resumePending: a RoundTrip blocked on the stream limit proceeds when a slot is free.
-func (e *c06Env) resumePending(forgot bool) {
+// resumePending: a RoundTrip blocked on the stream limit (strict mode) sleeps on cc.cond. Which
+// client operations happen to broadcast on that condition variable is not part of the property
+// (and a wake-up may come from anywhere, Body.Close of a long finished stream included), so the
+// lane does not try to predict it: after EVERY operation it broadcasts itself (a spurious wake-up,
+// legal for every cond.Wait loop) and then reads, under cc.mu, what the woken waiter is going to
+// find: no longer usable / a free slot => it leaves awaitOpenSlotForStreamLocked and we wait for
+// it; otherwise it goes back to sleep. The model does the same (`scriptStep`: op, `wake`, pump),
+// so the step in which the waiting request goes ahead is determined.
+func (e *c06Env) resumePending(bool) {
 	st := e.pending
-	if st == nil || !(e.woke || forgot) {
+	if st == nil {
 		return
 	}
-	// is the RoundTrip still blocked in awaitOpenSlotForStreamLocked? It is counted in
-	// pendingRequests while it waits; a woken waiter that finds a free slot leaves at once.
-	blocked := true
-	for i := 0; i < 40 && blocked; i++ {
-		e.cc.mu.Lock()
-		waiting := e.cc.pendingRequests > 0
-		free := int64(len(e.cc.streams)) < int64(e.cc.maxConcurrentStreams)
-		unusable := e.cc.closed || e.cc.goAway != nil || e.cc.doNotReuse
-		e.cc.mu.Unlock()
-		if !waiting || free || unusable || e.closed {
-			blocked = false
-		} else if i < 39 {
-			time.Sleep(250 * time.Microsecond)
-		}
-	}
-	if blocked {
+	e.cc.mu.Lock()
+	e.cc.cond.Broadcast()
+	// pendingRequests == 0: it has already left the wait loop (an earlier wake-up inside the
+	// operation) even if none of its frames has been seen yet
+	leaves := e.cc.pendingRequests == 0 || e.cc.closed || !e.cc.canTakeNewRequestLocked() ||
+		int64(len(e.cc.streams)) < int64(e.cc.maxConcurrentStreams)
+	e.cc.mu.Unlock()
+	if !leaves && !e.closed {
 		return
 	}
 	deadline := time.Now().Add(c06Wait)
 	for time.Now().Before(deadline) {
+		if e.pending == nil { // registered by the frame handler meanwhile
+			return
+		}
 		select {
 		case cs := <-st.stCh:
 			e.pending = nil
@@ -1016,10 +1036,4 @@ func (e *c06Env) peerData(id uint32, n, pad int, end bool) string {
 	}
 	e.afterOp(forgot)
 	return fmt.Sprintf("pd:%d:%d:%d:%s", id, n, pad, c06B(end))
-}
-
-// bufPoolsReset empties the scratch-buffer pools so that the chunking of a request body does
-// not depend on buffers left over from earlier streams.
-func bufPoolsReset() {
-	bufPools = [7]sync.Pool{}
 }
